@@ -168,14 +168,24 @@ def run_history(h, classes, number, mode, variant=0):
                     wfl = "momentum" if hsh(h["init"], k, "wf", variant) % 2 else "generic"
                     w = coords.build(classes, wfl, wv, ws, number)
                     twin = before_clone.add(w) if kind == "iadd" else before_clone.subtract(w)
-                    if kind == "iadd":
+                    use_out = hsh(h["init"], k, "out", variant) % 4 == 0      # the ufunc spelling of the in-place operator
+                    import numpy as _np
+
+                    if use_out:
+                        (_np.add if kind == "iadd" else _np.subtract)(v, w, out=(v,))
+                    elif kind == "iadd":
                         v += w
                     else:
                         v -= w
                 else:
                     f = number(terms.ev(step["arg"]))
                     twin = before_clone.scale(f) if kind == "imul" else before_clone.scale(1 / f)
-                    if kind == "imul":
+                    use_out = hsh(h["init"], k, "out", variant) % 4 == 0
+                    import numpy as _np
+
+                    if use_out:
+                        (_np.multiply if kind == "imul" else _np.true_divide)(v, f, out=(v,))
+                    elif kind == "imul":
                         v *= f
                     else:
                         v /= f
